@@ -177,8 +177,8 @@ class Flow:
                 r = None
             if hasattr(r, 'qualname') and hasattr(r, 'node') and not hasattr(r, 'methods'):
                 g = r
-        elif d is not None and d.split('.')[0] in ('self', 'cls') and d.count('.') == 1 and f.cls is not None:
-            g = ix.lookup_method(f.cls, name)
+        elif d is not None and d.split('.')[0] in ('self', 'cls') and d.count('.') == 1 and self._owner_cls() is not None:
+            g = ix.lookup_method(self._owner_cls(), name)
             bound = True
             if g is not None:
                 for c in ix.subclasses(g.cls, strict=True):
@@ -198,6 +198,13 @@ class Flow:
             if isinstance(n, (ast.Yield, ast.YieldFrom, ast.Await)):
                 return None, False
         return g, bound
+
+    def _owner_cls(self):
+        # a closure defined in a method sees the method's `self`
+        f = self.func
+        while f is not None and f.cls is None and getattr(f, 'parent', None) is not None:
+            f = f.parent
+        return f.cls if f is not None else None
 
     def _inline(self, node, name, recv, args, kw):
         g, bound = self._new_helper(node, name, recv)
